@@ -20,4 +20,4 @@ DELIVERABLES (all under /tmp/seed-{pid}/):
   - patch.diff : output of `git -C /tmp/wt-{pid} diff` containing ONLY your source change (not the demonstration).
   - a demonstration: a Go test file (e.g. seed_demo_test.go placed in a suitable package directory under lib/, you may copy the registry wiring from httpClient/main.go into it if you need the full pipeline; or a tiny standalone program) that FAILS with your change applied and PASSES on the unmodified code. Save a copy of it in /tmp/seed-{pid}/ together with the exact path where it must be placed and the exact command to run it. The demonstration must state in a comment which clause of the property is violated and must only assert what the property states.
   - meta.json : {{"property": "{pid}", "summary": "...what was changed...", "needs_to_manifest": "...what specific input/sequence/interleaving is required...", "files_changed": [...], "demo_path_in_repo": "...", "demo_command": "...", "verified": {{"suite_passes_with_change": true/false, "demo_fails_with_change": true/false, "demo_passes_without_change": true/false}}}}
-Verify all three facts yourself by actually running the commands (use `git stash` / `git stash pop` or `git apply -R` to switch between changed and unchanged source) and record the truth in meta.json. Leave the worktree with your source change applied and the demo file present. Finish with a short report: what you changed, why the existing tests do not notice, and what is needed to trigger it.""")
+Verify all three facts yourself by actually running the commands (use `git diff > p.diff; git apply -R p.diff` and `git apply p.diff` to switch between changed and unchanged source; NEVER use git stash — the stash is shared with other worktrees) and record the truth in meta.json. Leave the worktree with your source change applied and the demo file present. Finish with a short report: what you changed, why the existing tests do not notice, and what is needed to trigger it.""")
